@@ -792,7 +792,7 @@ func checkC14(ctx *RunCtx) int {
 	runHands(ctx, rep, 14, ctx.N(6000, 300000), GenOpts{}, commonScenarios(), nil, func() Monitor { return &C14Mon{} })
 	return finish(ctx, rep, &CheckSpec{
 		Prop: "C14", Level: "exploration", EvalCounter: "hands", NonTrivSet: "nontrivial",
-		Rule:        "deck ledger after every operation of generated hands on a pinned deck: hole+board+burned = consumed top of the deck as multisets, deck itself unchanged, hole-card count, (board,burned) sizes per street, board grows by appending, hole cards frozen; the deck after Start() and ShuffleCards on random decks (duplicates, length 0/1) keep the multiset. Non-trivial = distinct (consumed deck prefix, seats, hole cards)" + engineWorkloadNote + "",
+		Rule:        "deck ledger after every operation of generated hands on a pinned deck: hole+board+burned = consumed top of the deck as multisets, deck itself unchanged, hole-card count, (board,burned) sizes per street, board grows by appending, hole cards frozen; the same ledger on the state a refused expected step leaves behind (a street announced but not dealt); tables that use the deck to its last card are among the generated ones; the deck after Start() and ShuffleCards on random decks (duplicates, length 0/1) keep the multiset. Non-trivial = distinct (consumed deck prefix, seats, hole cards)" + engineWorkloadNote + "",
 		Required:    []string{"hands_early_end", "hands_allin_runout", "hands_full_showdown", "shuffles_checked", "direct_shuffles"},
 		Assumptions: []string{"Meta.BurnCount is ignored by the engine; one card is always burned, which is what the property states"},
 	})
